@@ -169,3 +169,31 @@ pub fn with_stack<C: SimColor, V: Visitor>(
         }
     }
 }
+
+/// Presents a target whose error type is `Infallible` (Framebuffer, MockDisplay) with the
+/// simulator's error type. All four methods are forwarded, so a target that only implements
+/// `draw_iter` still runs its own (trait default) fill methods.
+pub struct InfallibleTarget<'a, F>(pub &'a mut F);
+
+impl<F: DrawTarget<Error = core::convert::Infallible>> Dimensions for InfallibleTarget<'_, F> {
+    fn bounding_box(&self) -> Rectangle {
+        self.0.bounding_box()
+    }
+}
+
+impl<C: SimColor, F: DrawTarget<Color = C, Error = core::convert::Infallible>> DrawTarget for InfallibleTarget<'_, F> {
+    type Color = C;
+    type Error = SimError;
+    fn draw_iter<I: IntoIterator<Item = Pixel<C>>>(&mut self, pixels: I) -> Result<(), SimError> {
+        self.0.draw_iter(pixels).map_err(|e| match e {})
+    }
+    fn fill_contiguous<I: IntoIterator<Item = C>>(&mut self, area: &Rectangle, colors: I) -> Result<(), SimError> {
+        self.0.fill_contiguous(area, colors).map_err(|e| match e {})
+    }
+    fn fill_solid(&mut self, area: &Rectangle, color: C) -> Result<(), SimError> {
+        self.0.fill_solid(area, color).map_err(|e| match e {})
+    }
+    fn clear(&mut self, color: C) -> Result<(), SimError> {
+        self.0.clear(color).map_err(|e| match e {})
+    }
+}
